@@ -111,6 +111,23 @@ STR_PROGS = [
 ]
 STR_EXTRA = {4: ['héy'], 5: ['ab', 'c', 'def'], 6: ['5', '6', '7'], 7: ['65', '66']}
 
+# constant indices applied to constants: folding the lookup must not turn a negative index into "from the end"
+STRC_SOURCES = [
+    ('', '"hello"[{k}]'), ('const string S = "hello";\n', 'S[{k}]'), ('', 'ls[{k}]'), ('', "['h', 'e', 'l', 'l', 'o'][{k}]"),
+    ('', '[1, 2, 3, 4, 5][{k}]'), ('const int[] T = [1, 2, 3, 4, 5];\n', 'T[{k}]'), ('const string[] SS = ["ab", "cde"];\n', 'SS[1][{k} + 2]'),
+    ('const string[] SS = ["ab", "cde"];\n', 'SS[{k} + 4].length'), ('', '("hel" is byte[])[{k} + 2]'),
+]
+STRC_INDICES = [-32768, -32767, -257, -256, -255, -7, -6, -5, -4, -3, -2, -1, 0, 1, 3, 4, 5, 6, 251, 255, 256, 260, 32767]
+
+
+def strc_program(src_k, k, form):
+    g, e = STRC_SOURCES[src_k]
+    idx = {'lit': f'({k})' if k >= 0 else f'(0 - {-k - 1} - 1)', 'const': 'KI + 1 - 1', 'neg': f'-{-k}' if k < 0 else f'{k}'}[form]
+    e = e.replace('{k}', idx)
+    return (g + f'const int KI = {k if k >= 0 else "0 - " + str(-k - 1) + " - 1"};\n'
+            f"empty @is_you(int i) {{ const string ls = \"hello\"; write('<'); write({e}); write('>'); }}\n")
+
+
 DIV_PROGS = [
     "empty @is_you(int a, int b) { write('<'); writeln(a / b); write('>'); }",
     "empty @is_you(int a, int b) { write('<'); writeln(a % b); write('>'); }",
@@ -158,6 +175,9 @@ def items(tier):
     for k in range(len(STR_PROGS)):
         out.append((i, 'STR', k))
         i += 1
+    for k in range(len(STRC_SOURCES)):
+        out.append((i, 'STRC', k))
+        i += 1
     for k in range(len(DIV_PROGS)):
         out.append((i, 'DIV', k))
         i += 1
@@ -199,6 +219,14 @@ def run_item(item, tier):
         extra = STR_EXTRA.get(k, [])
         for W in Ws:
             run_program(st, STR_PROGS[k], [[str(v)] + extra for v in idx_values(5, W, tier)], [W], f'STR[{k}]')
+    elif fam == 'STRC':
+        for k in STRC_INDICES:
+            for form in ('lit', 'const', 'neg'):
+                if form == 'neg' and k >= 0:
+                    continue
+                run_program(st, strc_program(item[2], k, form), [['0']], Ws[:1] if tier == 'quick' else Ws, f'STRC[{STRC_SOURCES[item[2]][1]}, index {k} as {form}]')
+                st.add('cases')
+        st.sample({'family': 'STRC', 'source': STRC_SOURCES[item[2]][1], 'indices': STRC_INDICES})
     elif fam == 'DIV':
         k = item[2]
         for W in Ws:
@@ -232,6 +260,34 @@ def run_item(item, tier):
                         check_conformance(st, src, prog, [str(n)], W, S, tag=f'LEN[{el}] length={nexpr} n={n} S={S}')
                 if nexpr != 'n':
                     continue
+                # the same lengths written as compile-time constants (literal / const expression): the guard may not be
+                # dropped because the compiler knows the number; rejecting at compile time is allowed iff it would fault
+                for n in exact:
+                    if 0 <= n <= maxlen and n > 5:
+                        continue
+                    for form in ('lit', 'const'):
+                        txt = f'({n})' if n >= 0 else f'(0 - {-n - 1} - 1)'
+                        csrc = ('const int KN = ' + txt + ';\n' if form == 'const' else '') + LEN_PROG.format(
+                            el=el, touch=LEN_TOUCH[el].replace('n - 1', 'a.length - 1').replace('n > 0', 'a.length > 0'),
+                            n='KN + 1 - 1' if form == 'const' else txt)
+                        cprog = parse_program(csrc)
+                        for S in (8, 64):
+                            if n > 1 and S == 8:
+                                continue
+                            tag = f'LEN[{el}] constant length ({form}) {n} S={S}'
+                            lines, err = compile_case(csrc, W, S)
+                            if err:
+                                ref = ref_trace(cprog, [str(n)], W)
+                                faults = ref[0] == 'ok' and any(e == ('f', 'error') for e in ref[1][0])
+                                st.add('evaluations')
+                                if err[0] == 'reject' and faults:
+                                    st.add('constant_length_rejected_at_compile_time')
+                                else:
+                                    st.viol(f'{tag}: {err[0]}: {err[1]}', {'kind': 'conformance', 'src': csrc, 'prog': repr(cprog), 'argv': [str(n)],
+                                                                              'W': W, 'S': S, 'unchecked': False, 'tag': tag})
+                                continue
+                            check_conformance(st, csrc, cprog, [str(n)], W, S, tag=tag, lines=lines)
+                            st.add('constant_lengths')
                 # lengths that are representable but cannot fit any stack the program has: must be stack_overflow, cleanly
                 per = 8 if el == 'bool' else 1
                 for n in (maxlen, maxlen - 1, 64 * W * per + 8, 4000 * per):
@@ -272,9 +328,11 @@ def coverage(total, tier):
                'storage {local literal, local const literal, VLA, mutable global, const global, by-reference parameter, const view of a '
                'mutable array} x access {read, store, every op=, index computed and narrowed with `is byte`}; the same with compile-time constant '
                'indices (literal and const-variable expression; ' + ('22 values, lengths 0,1,2,8,9,17' if tier == 'thorough' else '9 values, lengths 0,1,8') + '); string indexing from 9 sources incl. argv',
+        'STRC': f'{len(STRC_SOURCES)} constant sources (string literal, const global/local string, char and int array literals, const tables, string-array elements, byte view) x '
+                f'{len(STRC_INDICES)} constant indices written as literal, const-variable expression and unary minus',
         'DIV': '/ % /= %= on locals, globals, int and byte array elements, call operands, conditions and !truth_is_defeat arguments; '
                'dividend and divisor over ' + ('({-9..9} + {min,min+1,max-1,max,+-255,+-256,+-2^(n-2)})^2' if tier == 'thorough' else '{min,-7,-1,0,1,7,max}^2'),
-        'LEN': 'dynamic array length (plain, and computed + narrowed with `is byte`) in {min,-9,-8,-7,-2,-1,0,1,2,5,maxlen+1,max} (exact reference match at stack 8 and 64) and '
+        'LEN': 'array length (run-time value; computed + narrowed with `is byte`; literal; const-variable expression) in {min,-9,-8,-7,-2,-1,0,1,2,5,maxlen+1,max} (exact reference match at stack 8 and 64) and '
                '{maxlen, maxlen-1, just above the stack size, 4000 elements} (must be a clean stack_overflow) for int/byte/bool/string elements',
         'NLP': 'family P of C02 (preemptive defeat functions x continuations x undo/stop)',
         'word_sizes': '2,3,4,8' if tier == 'thorough' else '2 plus one of 3,4 per program',
